@@ -139,6 +139,40 @@ def free_running(ctx, r, torn=False, skew=False):
         base.close()
 
 
+def ready_set_shifts(ctx, prop="C01"):
+    """the ready set changes between a claimer's start and its lock: OLD (the oldest task) waits for DEP, YOUNG is ready; the claimer is parked after
+    each of its calls, `set DEP done` runs meanwhile (OLD becomes ready, and is older than YOUNG), the claimer goes on.  Whoever's lines come second
+    in the log decided on a store that held the other's: a claim recorded after the release of OLD must have taken OLD.  And the mirror image: the
+    only ready task is taken away (closed) meanwhile while another one becomes ready — the claimer must get that one, not `no ready`/the closed one."""
+    for variant in ("older task becomes ready", "candidate closed, another becomes ready"):
+        st = cmdrun.Store(ctx.ergo_verif, ctx.go)
+        trace = []
+        def do(argv, stdin, rand):
+            env = {"VERIF_RAND": str(rand)}
+            rr = st.exec(argv, stdin, env=env)
+            trace.append({"argv": argv, "stdin": None if stdin is None else stdin.decode(), "env": env})
+            return rr
+        try:
+            old = json.loads(do(["--json", "new", "task"], b'{"title":"OLD (waits for DEP)"}', 101)["stdout"])["id"]
+            young = json.loads(do(["--json", "new", "task"], b'{"title":"YOUNG"}', 102)["stdout"])["id"]
+            dep = json.loads(do(["--json", "new", "task"], b'{"title":"DEP"}', 103)["stdout"])["id"]
+            do(["--json", "--agent", "ag-P1", "claim", dep], None, 104)
+            do(["--json", "sequence", dep, old], None, 105)
+            J = lambda d: {"piped": True, "body_stdin": False, "flags": {}, "json": d}
+            reqA = {"cmd": "claim_oldest", "epic": ""}
+            if variant == "older task becomes ready":
+                reqB = dict(cmd="set", id=dep, **J({"title": "P1 DEP finished", "state": "done"}))
+            else:
+                # YOUNG (the only candidate) is canceled and DEP finished in one go is not one command: cancel YOUNG here, OLD stays blocked —
+                # then the claimer must answer `no ready`, and never hand out the canceled task
+                reqB = dict(cmd="set", id=young, **J({"title": "P1 YOUNG canceled", "state": "canceled"}))
+            cmds = [(reqA, "ag-P0", {"VERIF_RAND": "201"}), (reqB, "ag-P1", {"VERIF_RAND": "202"})]
+            if explore2.explore_fixed(ctx, prop, st, cmds, trace, labels=("claim_oldest", "set (%s)" % variant), with_stat=True, b_modes=("complete", "hold_read")) == "violation":
+                return
+        finally:
+            st.close()
+
+
 def run(ctx):
     import os
     os.environ["GOGC"] = "1"      # stress the Go runtime: collections (and finalizers) inside every lock section
@@ -159,6 +193,12 @@ def run(ctx):
         kb = [("compact",), ("plan", "prune"), ("set+state", "close", "reopen"), ("compact", "claim_oldest"), ("new", "sequence"), ("compact", "plan")][i % 6]
         explore2.explore(ctx, "C01", r.fork(), kindsA=("claim_oldest",), kindsB=kb, max_points=(7 if ctx.quick else 40), state_cmds=8, legacy=(i % 2 == 0),
                          weights={"new_task": 60, "new_epic": 6, "set": 14, "sequence": 14, "plan": 6})
+    ready_set_shifts(ctx, "C01")
+    # the other way round: a command that replaces the whole log (plan, compact) is on its way while a claimer completes — the claim it did not see
+    # when it started must be in the file it publishes
+    for i in range(2 if ctx.quick else 40):
+        explore2.explore(ctx, "C01", r.fork(), kindsA=(("plan",), ("compact",))[i % 2], kindsB=("claim_oldest",), max_points=(7 if ctx.quick else 40), state_cmds=8,
+                         weights={"new_task": 70, "new_epic": 6, "set": 10, "sequence": 14}, with_stat=True, b_modes=("complete",))
     # two claimers on a store whose lock file is missing (re-created on demand) or whose log ends in a killed writer's fragment (repaired by the first writer)
     for i in range(4 if ctx.quick else 60):
         explore2.explore(ctx, "C01", r.fork(), kindsA=("claim_oldest",), kindsB=("claim_oldest",), max_points=(7 if ctx.quick else 40), state_cmds=8,
